@@ -369,7 +369,7 @@ pub fn run(env: &Env, spec: &RunSpec, dir: &Path, keep: bool) -> std::io::Result
         None if spec.pidns.is_some() => {
             fs::create_dir_all(d("parent"))?;
             let git = d("parent").join("git");
-            fs::copy("/bin/sh", &git)?;
+            std::os::unix::fs::symlink("/bin/sh", &git)?;
             let quote = |a: &str| format!("'{}'", a.replace('\'', "'\\''"));
             let mut delta_cmd = quote(&env.delta_bin.display().to_string());
             for a in &spec.args {
@@ -398,7 +398,9 @@ pub fn run(env: &Env, spec: &RunSpec, dir: &Path, keep: bool) -> std::io::Result
             // the shell must stay delta's parent) and ends with delta's status
             fs::create_dir_all(d("parent"))?;
             let prog = d("parent").join(&pc[0]);
-            fs::copy("/bin/sh", &prog)?;
+            // a symbolic link, not a copy: a freshly written executable can be "text file busy" when another
+            // worker thread forks while the copy is still open for writing
+            std::os::unix::fs::symlink("/bin/sh", &prog)?;
             let quote = |a: &str| format!("'{}'", a.replace('\'', "'\\''"));
             let mut script = format!("{}", quote(&env.delta_bin.display().to_string()));
             for a in &spec.args {
